@@ -11,6 +11,7 @@ import numpy as np
 from vmon import core, gen
 from vmon import refmodel as rm
 
+ANCHORS = ['evo/core/lie_algebra.py']
 LEVEL = "exploration"
 SHARDS = {"quick": 4, "thorough": 16}
 RULE = ("cases drawn from seeded generators per law family (explog, hatvee, se3, sim3, metric, "
